@@ -36,9 +36,9 @@ ASSUMPTIONS = ["Python's `re` engine is trusted: CHORD_RE is not translated; its
                "Lean grammar by the exhaustive-to-depth differential (suite `accept`)",
                "Python set iteration order is unobservable by encode (bitmap sums commute; proved for every "
                "permutation in join_split_encode)"]
-UNPROVED = ["CHORD_RE itself is not translated into Lean: `reMatch` = (grammar language) ∪ (grammar language + one final "
-            "newline) stands for `CHORD_RE.match`; regex ≡ grammar is established by the exhaustive-to-depth differential "
-            "(suite `accept`), not by a theorem"]
+UNPROVED = ["CHORD_RE itself is not translated into Lean: `reMatch` = the grammar language stands for `CHORD_RE.match`; "
+            "regex ≡ grammar is established by the exhaustive-to-depth differential (suite `accept`, which also feeds "
+            "trailing-newline strings), not by a theorem"]
 EXHAUSTIVE = {"quick": False, "thorough": True}
 
 # ------------------------------------------------------------------------------------------------
@@ -405,9 +405,8 @@ def suite_accept(rng, tier, shard, nshards):
             s = mutate(rng, s)
         yield Case("chord.validate", [s], lambda s=s: _validate(s), tag="validate-op", info={"label": s},
                    nontrivial=_accept(s))
-        if not s.endswith("\n"):
-            yield Case("chord.recognize", [s], lambda s=s: chord.CHORD_RE.match(s) is not None,
-                       tag="recognize-op", info={"label": s}, nontrivial=_accept(s))
+        yield Case("chord.recognize", [s], lambda s=s: chord.CHORD_RE.match(s) is not None,
+                   tag="recognize-op", info={"label": s}, nontrivial=_accept(s))
 
 
 def encode_cases(s, tag, flags=((False, False), (False, True), (True, False), (True, True))):
